@@ -76,6 +76,41 @@ func genC19(verifSeed int64, tier string, idx int) *core.Scenario {
 		}
 		sp.Docs = append(sp.Docs, b64(b))
 	}
+	twin := -1
+	if r.Intn(5) == 0 && ndocs >= 2 {
+		// a twin of document 0 with the same encoded size: one character differs, near the end or near the start
+		raw, _ := base64.StdEncoding.DecodeString(sp.Docs[0])
+		d := &sbom.Document{}
+		if proto.Unmarshal(raw, d) == nil && d.Metadata != nil {
+			flip := func(s string) string {
+				if s == "" {
+					return s
+				}
+				b := []byte(s)
+				if b[len(b)-1] == 'x' {
+					b[len(b)-1] = 'y'
+				} else {
+					b[len(b)-1] = 'x'
+				}
+				return string(b)
+			}
+			if nl := d.NodeList; nl != nil && len(nl.Nodes) > 0 && r.Intn(2) == 0 {
+				n := nl.Nodes[len(nl.Nodes)-1]
+				n.Name, n.Version = flip(n.Name), flip(n.Version)
+				if n.Name == "" && n.Version == "" {
+					d.Metadata.Name = flip(d.Metadata.Name)
+				}
+			} else {
+				d.Metadata.Name = flip(d.Metadata.Name)
+				d.Metadata.Version = flip(d.Metadata.Version)
+			}
+			before := len(raw)
+			if b, err := (proto.MarshalOptions{Deterministic: true}).Marshal(d); err == nil && len(b) == before && string(b) != string(raw) {
+				sp.Docs[1] = b64(b)
+				twin = 1
+			}
+		}
+	}
 	if r.Intn(3) == 0 {
 		for i := 0; i < 6; i++ {
 			sp.WriteSplit = append(sp.WriteSplit, []int{0, 1, 7, 64, 300}[r.Intn(5)])
@@ -91,7 +126,7 @@ func genC19(verifSeed int64, tier string, idx int) *core.Scenario {
 	stored := false
 	for i := 0; i < nsteps; i++ {
 		var st Step
-		via := []string{"fs", "fs", "rw", "rwb", "fsnil"}[r.Intn(5)]
+		via := []string{"fs", "fs", "rw", "rwb", "fsnil", "fsnew", "fsnew"}[r.Intn(7)]
 		k := r.Intn(10)
 		switch {
 		case k < 5 || !stored:
@@ -111,6 +146,10 @@ func genC19(verifSeed int64, tier string, idx int) *core.Scenario {
 			st.Fault = &FaultSpec{K: r.Intn(8), Kind: faultKinds[r.Intn(len(faultKinds))], Arg: r.Intn(40), Sticky: r.Intn(4) == 0}
 		}
 		sp.Steps = append(sp.Steps, st)
+	}
+	if twin > 0 {
+		ii := r.Intn(nids)
+		sp.Steps = append([]Step{{K: "Store", D: 0, ID: ii, Via: "fs"}, {K: "Store", D: twin, ID: ii, Via: "fs"}, {K: "Retrieve", ID: ii, Via: "fs"}}, sp.Steps...)
 	}
 	if r.Intn(6) == 0 {
 		// an entry whose encoded size is an exact multiple of a typical buffer size
